@@ -270,7 +270,20 @@ func (g *c16HGen) next(links [][3]string, policy [][]string) c16HOp {
 			if rng.Intn(2) == 0 {
 				nu, nr = g.name(), l[1]
 			}
-			return c16HOp{K: "UpdateGroupingPolicy", M: [][]string{g.grule(l[0], l[1], l[2]), g.grule(nu, nr, l[2])}}
+			// guard (F08, known for C06/C19): UpdateGroupingPolicy onto a rule that is already listed
+			// lists it twice; a later removal then drops the link while the rule stays listed, so
+			// the listing no longer determines the role graph.  Only updates to a rule that is not
+			// listed are generated.
+			listed := false
+			for _, x := range links {
+				if x == [3]string{nu, nr, l[2]} {
+					listed = true
+				}
+			}
+			if !listed {
+				return c16HOp{K: "UpdateGroupingPolicy", M: [][]string{g.grule(l[0], l[1], l[2]), g.grule(nu, nr, l[2])}}
+			}
+			g.c.Count("hist-redrawn:update-onto-listed-rule(F08)")
 		}
 		return g.next(links, policy)
 	case x < 90:
